@@ -19,6 +19,15 @@ fn mono_ns() -> u128 {
 	ts.tv_sec as u128 * 1_000_000_000 + ts.tv_nsec as u128
 }
 
+/// (starttime, state) from /proc/<pid>/stat
+fn proc_start(pid: &str) -> Option<(String, String)> {
+	let s = std::fs::read_to_string(format!("/proc/{pid}/stat")).ok()?;
+	let rest = s.rsplit(')').next()?;
+	let f: Vec<&str> = rest.split_whitespace().collect();
+	// after the ")": state is field 0, starttime is field 19 (field 22 of the whole line)
+	Some((f.get(19)?.to_string(), f.first()?.to_string()))
+}
+
 fn hex(b: &[u8]) -> String {
 	b.iter().map(|x| format!("{x:02x}")).collect()
 }
@@ -150,6 +159,24 @@ fn main() {
 		let r = unsafe { libc::flock(f.as_raw_fd(), libc::LOCK_EX | libc::LOCK_NB) };
 		if r != 0 {
 			log(&logp, &format!("OVERLAP {pid} {}", mono_ns()));
+		}
+	}
+	// previous process of the same job (recorded by it in <lock>.pid as "pid starttime"): if it still has an
+	// entry in /proc with the same start time it has not been reaped yet (running or zombie)
+	if !lockp.is_empty() {
+		let pidf = format!("{lockp}.pid");
+		if let Ok(prev) = std::fs::read_to_string(&pidf) {
+			let mut it = prev.split_whitespace();
+			if let (Some(ppid_s), Some(pst)) = (it.next(), it.next()) {
+				if let Some((st, state)) = proc_start(ppid_s) {
+					if st == pst {
+						log(&logp, &format!("UNREAPED {pid} {} prev={ppid_s} state={state}", mono_ns()));
+					}
+				}
+			}
+		}
+		if let Some((st, _)) = proc_start(&pid.to_string()) {
+			let _ = std::fs::write(&pidf, format!("{pid} {st}"));
 		}
 	}
 	let envs: Vec<String> = std::env::vars()
